@@ -35,6 +35,10 @@ impl Default for PoolConfig {
     /// Create a [`PoolConfig`] where [`PoolConfig::max_size`] is set to
     /// `cpu_count * 4` ignoring any logical CPUs (Hyper-Threading).
     fn default() -> Self {
+        #[cfg(deadpool_verif)]
+        if let Some(n) = deadpool_runtime::verif::physical_cpus() {
+            return Self::new(n * 4);
+        }
         Self::new(num_cpus::get_physical() * 4)
     }
 }
